@@ -2,7 +2,7 @@
 //!
 //! Oracle: independent reference arithmetic in i128 nanoseconds relative to the UNIX epoch for wall
 //! times and in nanoseconds relative to one fixed base `Instant` for monotonic times.  The library
-//! (`omaha_client::time`, `StorageExt::{get_time,set_time}` over `MemStorage`) is run on boundary
+//! (`omaha_client::time`, `StorageExt::{get_time,set_time}` and the update-check `Context` persist / load over `MemStorage`) is run on boundary
 //! biased inputs and every result is compared with that reference.
 
 use crate::common::{guard, Args, Fnv, PanicInfo, Report, Rng};
@@ -341,10 +341,26 @@ impl Ctx<'_> {
             let got = block_on(s.get_time("t"));
             let pm = PartialComplexTime::Wall(t).checked_to_micros_since_epoch();
             let none_m = PartialComplexTime::Monotonic(mono).checked_to_micros_since_epoch();
-            (set_ok, commit_ok, before_commit, got, pm, none_m)
+            // the same instant stored and reloaded the way the state machine stores its own times: as the
+            // last-update time of the update-check context
+            let ctx = omaha_client::state_machine::update_check::Context {
+                schedule: omaha_client::common::UpdateCheckSchedule::builder().last_update_time(PartialComplexTime::Wall(t)).build(),
+                state: omaha_client::common::ProtocolState::default(),
+            };
+            let mut s2 = MemStorage::new();
+            block_on(ctx.persist(&mut s2));
+            let _ = block_on(s2.commit());
+            let back = block_on(omaha_client::state_machine::update_check::Context::load(&s2));
+            let ctx_got = back.schedule.last_update_time.and_then(|p| p.checked_to_system_time());
+            (set_ok, commit_ok, before_commit, got, pm, none_m, ctx_got)
         }) {
             Err(p) => self.panicked("storage-roundtrip", p, case),
-            Ok((set_ok, commit_ok, before_commit, got, pm, none_m)) => {
+            Ok((set_ok, commit_ok, before_commit, got, pm, none_m, ctx_got)) => {
+                if ctx_got != expect {
+                    let show = |x: Option<SystemTime>| x.map(|t| format!("epoch{:+} ns", ns_of_st(t)));
+                    self.viol("storage-roundtrip", format!("storage-roundtrip context {}", if n < 0 { "pre-epoch" } else { "post-epoch" }),
+                        format!("update-check Context persisted with last_update_time epoch{:+} ns reloads as {:?}, expected {:?}", n, show(ctx_got), show(expect)), case);
+                }
                 let show = |x: Option<SystemTime>| x.map(|t| format!("epoch{:+} ns", ns_of_st(t)));
                 if !set_ok || !commit_ok || got != expect || before_commit != expect {
                     self.viol("storage-roundtrip", format!("storage-roundtrip {which}"),
